@@ -105,7 +105,9 @@ func Process(t parser.TemplateFile) (parser.TemplateFile, error) {
 		return t, err
 	}
 	// Delete unused imports.
-	for _, imp := range firstGoNodeInTemplate.Imports {
+	// DeleteNamedImport removes the import from firstGoNodeInTemplate.Imports, so iterate over a copy,
+	// otherwise the import that follows a deleted one is skipped.
+	for _, imp := range slices.Clone(firstGoNodeInTemplate.Imports) {
 		if !containsImport(updatedImports, imp) {
 			name, path, err := getImportDetails(imp)
 			if err != nil {
